@@ -80,6 +80,30 @@ impl MatterLocalService {
         self.service_internal(matter.dev_det(), matter.port(), matter.icd_mode(), buf)
     }
 
+    /// Verification hook: [`Self::service`] with the advertised inputs given
+    /// explicitly instead of being read from a `Matter` instance.
+    #[cfg(rs_matter_verif)]
+    #[allow(clippy::type_complexity)]
+    pub fn verif_service<'a>(
+        &self,
+        dev_det: &BasicInfoConfig<'_>,
+        matter_port: u16,
+        icd_mode: Option<OperatingModeEnum>,
+        buf: &'a mut [u8],
+    ) -> Result<
+        (
+            MdnsLocalService<
+                'a,
+                impl Iterator<Item = &'a str> + Clone,
+                impl Iterator<Item = (&'a str, &'a str)> + Clone,
+            >,
+            &'a mut [u8],
+        ),
+        Error,
+    > {
+        self.service_internal(dev_det, matter_port, icd_mode, buf)
+    }
+
     /// The implementation behind [`Self::service`], taking the advertised inputs
     /// explicitly.
     #[allow(clippy::type_complexity)]
